@@ -44,6 +44,8 @@ pub fn write_exports<ProgW: io::Write + ?Sized>(
                 let (mut out_writer, path) =
                     create_output_file(output_dir, output_name, "equity", "txn")?;
                 eq_exporter.write_export(settings, &mut out_writer, txn_set)?;
+                // a failure of the final flush must fail the run (drop would swallow it)
+                out_writer.flush()?;
                 if let Some(p) = prog_writer.as_mut() {
                     writeln!(p, "{:>21} : {}", "Equity Export", path)?;
                 }
@@ -54,6 +56,8 @@ pub fn write_exports<ProgW: io::Write + ?Sized>(
                 let (mut out_writer, path) =
                     create_output_file(output_dir, output_name, "identity", "txn")?;
                 id_exporter.write_export(settings, &mut out_writer, txn_set)?;
+                // a failure of the final flush must fail the run (drop would swallow it)
+                out_writer.flush()?;
                 if let Some(p) = prog_writer.as_mut() {
                     writeln!(p, "{:>21} : {}", "Identity Export", path)?;
                 }
